@@ -224,6 +224,13 @@ def _replay(run, case, n):
             run.mismatch('again.count', tag, brief, len(entries), len(again))
         elif pattern == 0:
             _check_rows(run, brief, tag, u, again)
+        # ... and the header tables are the same after repeated requests (DW_LNE_define_file entries are added once)
+        try:
+            _check_tables(lambda c, e, o, _t=htag: run.compare('again.' + c, _t, brief, e, o), u, dw.line_program_for_CU(cus[i]), after=True)
+        except core.CallTimeout:
+            raise
+        except Exception as ex:
+            run.mismatch('header.exception', htag, brief, 'no exception', 'exc:%s:%s' % (type(ex).__name__, ex))
 
 
 def _corpus(run, quick):
